@@ -161,6 +161,78 @@ _CLASSES = [
 ]
 
 
+# The wording of failure messages is not promised by any property.  Besides the literal fragments above (the wording of the pinned
+# tree), the classes are LEARNT from the binary under test: one canonical failing program per failure site, whose innermost message
+# (digits and quoted parts generalised) becomes a pattern of its class - unless the reports of another class show it too.
+_CANON = [
+    ("assert", ["assert a == 12345"]),
+    ("nil", ["on: int? = nil", "v = get on"]),
+    ("nil", ["oc: Kf? = nil", "v = oc.f"]),
+    ("range", ["ll: [int...] = [1]", "v = ll[a + 5]"]),
+    ("range", ["ll: [int...] = [1]", "ng = 0 - a", "v = ll[ng]"]),
+    ("range", ["le: [int...] = []", "zi = a - a", "v = le[zi]"]),
+    ("range", ["ll: [int...] = [1]", "ll[a] = 5"]),
+    ("range", ["ll: [int...] = [1]", "v = ll.remove(a + 5)"]),
+    ("range", ["le: [int...] = []", "zi = a - a", "v = le.remove(zi)"]),
+    ("range", ["ss = \"abc\"", "v = ss[a + 5]"]),
+    ("range", ["ss = \"abc\"", "v = ss.substring(2, 8 + a)"]),
+    ("zero-divisor", ["z = a - a", "v = 10 / z"]),
+    ("zero-divisor", ["z = a - a", "v = 10 % z"]),
+    ("zero-divisor", ["zf = 0.0", "v = 1.5 / zf"]),
+    ("overflow", ["big = 2147483647", "v = big + a"]),
+    ("overflow", ["sh = 40", "v = a << sh"]),
+    ("conversion", ["n3 = 299 + a", "v = n3.to_byte()"]),
+    ("conversion", ["bb = B9999999999", "v = bb.to_int()"]),
+]
+_LEARNT = None
+
+
+def innermost_message(res):
+    """First line of the innermost cause of a failure report (the last numbered entry of the chain, or the panic message)."""
+    m = re.search(r"panicked at [^\n]*\n([^\n]*)", res.err)
+    if m:
+        return m.group(1).strip()
+    last = None
+    for l in res.err.split("\n"):
+        mm = re.match(r"\s+(\d+): (.*)$", l)
+        if mm:
+            last = mm.group(2).strip()
+    return last
+
+
+def _generalise(msg):
+    parts = re.split(r"([\w./-]+\.ms\b|-?\d+(?:\.\d+)?|`[^`]*`|'[^']*'|\"[^\"]*\")", msg)
+    rx = "".join(re.escape(x) if i % 2 == 0 else ".+?" for i, x in enumerate(parts))
+    return rx if len(re.sub(r"\.\+\?|\\", "", rx)) >= 4 else None
+
+
+def _learn_classes():
+    global _LEARNT
+    d = os.path.join(worker_dir(), "calib2")
+    os.makedirs(d, exist_ok=True)
+    prelude = "a = 1\nclass Kf {\n f: int\n constructor(self) {\n  self.f = 1\n }\n}\n"
+    got = []
+    for i, (cls, lines) in enumerate(_CANON):
+        write_files(d, {"x.ms": prelude + "\n".join(lines) + "\n"})
+        r = run(["run", "x.ms", "-q"], d)
+        msg = innermost_message(r) if r.exit != 0 and not compile_rejected(r) else None
+        got.append((cls, msg, r.err))
+    learnt = []
+    for cls, msg, _ in got:
+        rx = _generalise(msg) if msg else None
+        if not rx:
+            continue
+        try:
+            c = re.compile(rx)
+        except re.error:
+            continue
+        if any(c2 != cls and c.search(e2) for c2, _, e2 in got):
+            continue                      # too generic: another class shows it as well
+        if not any(c.pattern == c0.pattern for _, c0 in learnt):
+            learnt.append((cls, c))
+    _LEARNT = learnt
+
+
 def classify_failure(res):
     """Class of a failing run, from exit status and messages."""
     if res.timeout:
@@ -170,6 +242,11 @@ def classify_failure(res):
         if "has overflowed its stack" in text:
             return "stack"
         return "abort"
+    if _LEARNT is None:
+        _learn_classes()
+    for cls, c in _LEARNT:
+        if c.search(text):
+            return cls
     for cls, frags in _CLASSES:
         for f in frags:
             if f in text:
